@@ -80,7 +80,7 @@ FLOORS = {
 }
 JOBS = 14
 SPEC_TIMEOUT = 420
-CONFIRM_ALONE = ('transfer_stalled', 'poll_overran')
+CONFIRM_ALONE = ('transfer_stalled', 'poll_overran', 'poll_false_with_data')
 
 F_SETPIPE_SZ, F_GETPIPE_SZ = 1031, 1032
 _os_write, _os_read = os.write, os.read
@@ -639,6 +639,8 @@ class Transfer:
         self.ts = threading.Thread(target=self._guard, args=(self._send_loop,), daemon=True)
         self.tr = threading.Thread(target=self._guard, args=(self._recv_loop,), daemon=True)
         self.harness_error = None
+        self.suppress = None
+        self.suppressed = None
 
     def _guard(self, fn):
         try:
@@ -653,23 +655,16 @@ class Transfer:
     def fail(self, kind, **detail):
         self.failed = True
         self.abort.set()
+        if self.suppress is not None and self.suppress():
+            # the harness itself ended the peer (stall watchdog): what the
+            # receiver sees after that is not the connection's doing
+            self.suppressed = (kind, detail)
+            return
         viol(self.rec, kind, self.attrs, **detail)
 
     def start(self):
         self.ts.start()
         self.tr.start()
-
-    def join(self, deadline):
-        for t in (self.ts, self.tr):
-            while t.is_alive():
-                if self.abort.is_set() and self.failed:
-                    t.join(2.0)
-                    break
-                left = deadline - time.monotonic()
-                if left <= 0:
-                    return False
-                t.join(min(left, 0.5))
-        return True
 
     # -- sender --------------------------------------------------------
     def _send_loop(self):
@@ -785,6 +780,26 @@ class Transfer:
         self.cnt('bytes', sum(m.n for m in self.msgs))
 
 
+def wait_transfers(transfers, progress):
+    """wait for the transfer threads; give up only when nothing moved (no
+    read or write call reached the shim) for STALL_S seconds"""
+    last, t_last = progress(), time.monotonic()
+    while True:
+        alive = [th for t in transfers for th in (t.ts, t.tr) if th.is_alive()]
+        if not alive:
+            return True
+        if any(t.failed for t in transfers):
+            for th in alive:
+                th.join(2.0)
+            return True
+        alive[0].join(0.05)
+        cur, now = progress(), time.monotonic()
+        if cur != last:
+            last, t_last = cur, now
+        elif now - t_last > STALL_S:
+            return False
+
+
 def shim_scenario(rec, sh, rng, spec, idx):
     transport = rng.choice(['pipe', 'sock'])
     bufcls = rng.choice(['default', 'tiny'])
@@ -827,8 +842,9 @@ def shim_scenario(rec, sh, rng, spec, idx):
     fds = [a.fileno(), b.fileno()]
     for t in transfers:
         t.start()
-    deadline = time.monotonic() + STALL_S
-    done = all([t.join(deadline) for t in transfers])
+    done = wait_transfers(
+        transfers, lambda: (sum(p.c['r_calls'] + p.c['w_calls'] for p in plans),
+                            sum(t.sent + t.received for t in transfers)))
     failed = any(t.failed for t in transfers)
     herr = [t.harness_error for t in transfers if t.harness_error]
     if herr:
@@ -838,7 +854,7 @@ def shim_scenario(rec, sh, rng, spec, idx):
         stalled = True
         viol(rec, 'transfer_stalled', attrs, profile=profile, bufcls=bufcls,
              sent=[t.sent for t in transfers], received=[t.received for t in transfers],
-             waited_s=STALL_S)
+             no_progress_for_s=STALL_S)
     clean = done and not failed
     if clean:
         for fd in fds:
@@ -1602,16 +1618,23 @@ def kfrag_scenario(rec, sh, rng, spec, idx):
     state = {'killed': False}
 
     def watchdog():
-        if not stop.wait(STALL_S):
-            state['killed'] = True
-            try:
-                os.kill(pid, signal.SIGKILL)
-            except ProcessLookupError:
-                pass
+        last, t_last = -1, time.monotonic()
+        while not stop.wait(0.5):
+            cur, now = plan.c['r_calls'], time.monotonic()
+            if cur != last:
+                last, t_last = cur, now
+            elif now - t_last > STALL_S:
+                state['killed'] = True
+                try:
+                    os.kill(pid, signal.SIGKILL)
+                except ProcessLookupError:
+                    pass
+                return
     wd = threading.Thread(target=watchdog, daemon=True)
     wd.start()
     slow = rng.choice([0, 0, 0.001, 0.003])
     t = Transfer(rec, None, r, msgs, attrs, seed, close_after=True, slow=slow)
+    t.suppress = lambda: state['killed']
     try:
         t._recv_loop()
         if t.failed and not state['killed']:
@@ -1632,8 +1655,9 @@ def kfrag_scenario(rec, sh, rng, spec, idx):
         os.unlink(outfile)
     except (OSError, ValueError):
         pass
-    if state['killed'] and not t.failed:
-        viol(rec, 'transfer_stalled', attrs, received=t.received, of=len(msgs), waited_s=STALL_S)
+    if state['killed']:
+        viol(rec, 'transfer_stalled', attrs, received=t.received, of=len(msgs),
+             no_progress_for_s=STALL_S, receiver_then_saw=repr(t.suppressed)[:300])
         t.failed = True
     elif child is None and not t.failed:
         raise RuntimeError('kfrag child left no report (status %r)' % (status,))
